@@ -179,6 +179,11 @@ func (visitor *Visitor) VisitMap(schema *ast.Schema, def ast.Type) (ast.Type, er
 
 	var err error
 
+	def.Map.IndexType, err = visitor.VisitType(schema, def.AsMap().IndexType)
+	if err != nil {
+		return ast.Type{}, err
+	}
+
 	def.Map.ValueType, err = visitor.VisitType(schema, def.AsMap().ValueType)
 	if err != nil {
 		return ast.Type{}, err
